@@ -366,8 +366,11 @@ def gen_c08_case(rng: random.Random) -> Dict[str, Any]:
         if rng.random() < 0.6:
             ann = rng.choice(simple)
             variadic["dstar"] = {"ann": ann, "vals": {f"zz{i}": gen_value_for(rng, ann) for i in range(rng.randint(0, 2))}}
+    posonly = 0
+    if npos and rng.random() < 0.15:
+        posonly = rng.randint(1, npos)  # def f(a, b, /, c, ...): the first parameters are positional-only (and sent so)
     return {
-        "variadic": variadic,
+        "variadic": variadic, "posonly": posonly, "via_kiq": rng.random() < 0.2,
         "params": params, "supplied": supplied, "async": rng.random() < 0.6,
         "validate": rng.random() < 0.75, "fmt": rng.choice(FORMATS), "late_register": rng.random() < 0.3,
         # an earlier message for the same task on the same worker whose values cannot be converted
@@ -447,6 +450,8 @@ def build_fn(case: Dict[str, Any]) -> Any:
             d = f" = {p.get('default_val', 'DEFAULT')!r}" if p["default"] else ""
             parts.append(f"{p['name']}{a}{d}")
             names.append(p["name"])
+            if case.get("posonly") and len(names) == case["posonly"] and "/" not in parts:
+                parts.append("/")
     if "star" in va and not star_done:
         parts.append(_star())
     if "dstar" in va:
@@ -568,9 +573,19 @@ def _run_c08_inner(case: Dict[str, Any], fn: Any, src: str, broker: Any, early_r
         kicker = task.kicker()
         if case.get("labels"):
             kicker = kicker.with_labels(**case["labels"])
-        msg = kicker._prepare_message(*args, **kwargs)
-        bm = broker.formatter.dumps(msg)
-        back = broker.formatter.loads(bm.message)
+        if case.get("via_kiq") and not case.get("via_inmem"):
+            # the whole public send path: task.kicker()...kiq(...) on a broker that records what it is handed
+            async def _kiq(loop: Any) -> None:
+                await kicker.kiq(*args, **kwargs)
+            n0 = len(broker.sent)
+            run_virtual(_kiq)
+            bm = broker.sent[n0]
+            back = broker.formatter.loads(bm.message)
+            msg = back
+        else:
+            msg = kicker._prepare_message(*args, **kwargs)
+            bm = broker.formatter.dumps(msg)
+            back = broker.formatter.loads(bm.message)
     except Exception as exc:  # noqa: BLE001
         v.append(Violation("encode-decode-raised", f"{case['fmt']}: {type(exc).__name__}: {exc} for args={args!r} kwargs={kwargs!r}"))
         return v, obs
